@@ -194,7 +194,16 @@ def run_property(pid, tier, seed, verbose=False):
       if all(v[0] is not o for v in violations) and not any(
           v[1] is rec for v in violations):
         violations.append((o, rec))
-  # native bounded stand-ins / always-on native checks declared by the script
+  # native bounded stand-ins / always-on native checks declared by the script; every replay driver of the property is
+  # also swept once as a bounded cross-check of the contracts against the real code (never counted as proved)
+  declared = list(getattr(p, 'native_checks', []))
+  have = {(b['driver'], b['payload'].get('fn')) for b in declared}
+  for drv, fn in sorted(getattr(p, 'native_sweeps', ())):
+    if (drv, fn) not in have:
+      declared.append(dict(name=f'crosscheck_{fn}', driver=drv, payload={'mode': 'sweep', 'fn': fn},
+                           bound=f'the bounded input family of checker `{fn}` in {drv} (the replay driver of this property)',
+                           why_bounded='cross-check of the contracts on the real code; the deductive obligations above are the proof'))
+  p.native_checks = declared
   for b in getattr(p, 'native_checks', []):
     res = run_native(b['driver'], dict(b['payload'], seed=seed, tier=tier),
                      timeout=b.get('timeout', 900))
